@@ -1298,7 +1298,10 @@ impl<'a> Parser<'a> {
                         false
                     };
                     let mut args = Vec::new();
-                    if self.current.kind != TokenKind::RParen {
+                    if self.current.kind == TokenKind::Star && name.eq_ignore_ascii_case("count") {
+                        // COUNT(*) counts rows: it is the argument-less COUNT
+                        self.advance();
+                    } else if self.current.kind != TokenKind::RParen {
                         args.push(self.parse_expression()?);
                         while self.current.kind == TokenKind::Comma {
                             self.advance();
@@ -1925,6 +1928,22 @@ mod tests {
         } else {
             panic!("Expected Query statement");
         }
+    }
+
+    #[test]
+    fn test_parse_count_star() {
+        let mut parser = Parser::new("MATCH (n:Person) RETURN count(*)");
+        let Ok(Statement::Query(query)) = parser.parse() else {
+            panic!("Expected Query statement");
+        };
+        let Expression::FunctionCall { name, args, .. } = &query.return_clause.items[0].expression
+        else {
+            panic!("Expected function call");
+        };
+        assert_eq!(name, "count");
+        assert!(args.is_empty());
+        // `*` is not an argument of any other function
+        assert!(Parser::new("MATCH (n) RETURN sum(*)").parse().is_err());
     }
 
     #[test]
